@@ -167,7 +167,10 @@ Bucket_grow(Bucket *self, int newsize, int noval)
             values = BTree_Realloc(self->values, sizeof(VALUE_TYPE) * newsize);
             if (values == NULL)
             {
-                free(keys);
+                /* realloc may have moved (and has released) the old key
+                 * block: keep the new, larger one; self->size is unchanged.
+                 */
+                self->keys = keys;
                 return -1;
             }
             self->values = values;
@@ -1320,10 +1323,11 @@ _bucket_setstate(Bucket *self, PyObject *state)
         keys = BTree_Realloc(self->keys, sizeof(KEY_TYPE)*len);
         if (keys == NULL)
             return -1;
+        /* realloc released the old block: never leave self->keys dangling */
+        self->keys = keys;
         values = BTree_Realloc(self->values, sizeof(VALUE_TYPE)*len);
         if (values == NULL)
             return -1;
-        self->keys = keys;
         self->values = values;
         self->size = len;
     }
